@@ -163,6 +163,7 @@ PROPS = {
                 {"name": "c08_batch_dedupe", "thorough": {"max_paths": 1000000, "timeout": 3400, "seeds": [0, 1, 2]}, "covers": ["ran", "scheduled_some"], "quick": {"max_paths": 100000, "timeout": 600}},
                 {"name": "c08_farthest", "covers": ["kept", "dropped"], "quick": {"max_paths": 100000, "timeout": 600}},
                 {"name": "c09_range_follows", "covers": ["ran"], "quick": {"max_paths": 10000, "timeout": 600}},
+                {"name": "c08_running_fetch_not_repeated", "covers": ["readvertised", "t2_was_running"], "quick": {"max_paths": 10000, "timeout": 600}},
                 {"name": "c08_progress", "thorough": {"max_paths": 1000000, "timeout": 3400, "seeds": [0, 1, 2]}, "covers": ["done"], "quick": {"max_paths": 100000, "timeout": 900}},
             ]},
         ],
